@@ -410,7 +410,8 @@ def event_context_siblings(ck, F, rid="C06.R14"):
         if ck.anchor(rid, "FmtContext::" + acc, fc):
             found += 1
             calls = {t["callee"].get("method") for bb, t in fc.calls()}
-            if calls & {"event_scope", "event_span"}:
+            # (event_scope may also be built on the sibling accessor parent_span, which is decided by its own instance)
+            if calls & {"event_scope", "event_span"} or (acc == "event_scope" and "parent_span" in calls and "lookup_current" not in calls):
                 ck.ok(rid, "FmtContext::%s is the event's" % acc, fn=fc.path)
             else:
                 ck.bad(rid, "FmtContext::%s is the event's" % acc, where(fc.raw["sp"]), "calls %s" % sorted(c for c in calls if c), fn=fc.path)
